@@ -15,6 +15,7 @@ import (
 
 // Ctx is the per-run context handed to a property's rule set.
 type Ctx struct {
+	included      bool // this run is a rule set included by another property: it includes nothing itself
 	armReach      map[byte]map[*ssa.Function]bool
 	malformedDrop string
 	P             *core.Prog
@@ -852,7 +853,11 @@ type pdSite struct {
 // paramDescriptionSites finds the ParameterDescription frame wherever it is written (a method of Session, a plain
 // function, a helper that takes the whole statement, or inline in handleDescribe) and resolves what it announces.
 func (c *Ctx) paramDescriptionSites() []pdSite {
-	hd := c.P.Method("wire", "Session", "handleDescribe")
+	roots := c.describeRoots()
+	isRoot := map[*ssa.Function]bool{}
+	for _, r := range roots {
+		isRoot[r] = true
+	}
 	var out []pdSite
 	for _, fn := range c.P.ScopeFuncs() {
 		if !c.P.InPkg(fn, "wire") {
@@ -904,11 +909,11 @@ func (c *Ctx) paramDescriptionSites() []pdSite {
 			if site.count == nil {
 				continue
 			}
-			switch {
-			case fn == hd:
-				site.countRoot, site.countPath, site.at = []ssa.Value{lenRoot}, []string{lenPath}, []ssa.Instruction{site.count}
-			case hd != nil:
-				prm, isP := lenRoot.(*ssa.Parameter)
+			prm, isP := lenRoot.(*ssa.Parameter)
+			for _, hd := range roots {
+				if hd == fn {
+					continue
+				}
 				for _, w := range callsIn(hd, calleeIs(fn)) {
 					var r ssa.Value
 					p := "?"
@@ -922,6 +927,9 @@ func (c *Ctx) paramDescriptionSites() []pdSite {
 					}
 					site.countRoot, site.countPath, site.at = append(site.countRoot, r), append(site.countPath, p), append(site.at, w)
 				}
+			}
+			if len(site.at) == 0 && isRoot[fn] {
+				site.countRoot, site.countPath, site.at = []ssa.Value{lenRoot}, []string{lenPath}, []ssa.Instruction{site.count}
 			}
 			out = append(out, site)
 		}
@@ -991,4 +999,55 @@ func (c *Ctx) describeSinks(hd *ssa.Function) []describeSink {
 		}
 	}
 	return out
+}
+
+// describeRoots returns handleDescribe and the helpers of package wire it calls directly that look a statement or a
+// portal up (the per-kind halves of Describe when the switch arms are functions of their own).
+func (c *Ctx) describeRoots() []*ssa.Function {
+	hd := c.P.Method("wire", "Session", "handleDescribe")
+	if hd == nil {
+		return nil
+	}
+	roots := []*ssa.Function{hd}
+	seen := map[*ssa.Function]bool{hd: true}
+	for _, ci := range core.Calls(hd) {
+		h := core.StaticCallee(ci)
+		if h == nil || seen[h] || !c.P.InPkg(h, "wire") || h.Blocks == nil {
+			continue
+		}
+		if len(callsIn(h, cacheInvoke("StatementCache", "Get")))+len(callsIn(h, cacheInvoke("PortalCache", "Get"))) > 0 {
+			seen[h] = true
+			roots = append(roots, h)
+		}
+	}
+	return roots
+}
+
+// include runs the rule set of another property and takes over the obligations of the named rules as obligations of
+// this property under rule id `as`: the other property's rule is a necessary condition of this property as well
+// (e.g. "byte-identical values" needs the message window discipline). Shared obligations are decided on the same
+// tree in the same run; an open finding of the source property is reported by the source only.
+func (c *Ctx) include(as, from string, rules []string, why string, floor int) {
+	if c.included {
+		return
+	}
+	run, ok := Registry[from]
+	if !ok {
+		c.R.Fail(as, "include:"+from, "-", "shared rule set resolves", "unknown property "+from)
+		return
+	}
+	sub := core.NewReport(from, c.Tier, 0)
+	sc := &Ctx{P: c.P, R: sub, Tier: c.Tier, Repo: c.Repo, Verif: c.Verif, included: true}
+	run(sc)
+	open, err := core.OpenFindingKeys(c.Verif, from)
+	if err != nil {
+		c.R.Fail(as, "include:"+from, "-", "known findings readable", err.Error())
+		return
+	}
+	wanted := map[string]bool{}
+	for _, r := range rules {
+		wanted[r] = true
+	}
+	n := c.R.Import(sub, wanted, as, why, open)
+	c.R.Floor(as, "obligations shared with "+from+" "+strings.Join(rules, ","), n, floor)
 }
